@@ -155,7 +155,7 @@ def signed(e, c):
     if k in ("el", "it"):
         return c.types[elkey(e, c)[1]]["signed"]
     if k == "iv":
-        return True
+        return True        # a foreach index behaves like the Python int literal of its value (32-bit signed)
     if k == "sum":
         return c.types[e[1] + "[]"]["signed"]
     raise ValueError("signed of " + repr(e))
@@ -301,6 +301,10 @@ def holds(s, c):
                 if not truth(["bin", "!=", es[i], es[j]], c):
                     return False
         return True
+    if k == "uniql":
+        n = c.env["#" + s[1]]
+        vals = [c.env["%s[%d]" % (s[1], i)] for i in range(n)]
+        return len(set(vals)) == len(vals)
     if k == "uvec":
         ls = s[1]
         for i in range(len(ls)):
@@ -433,6 +437,8 @@ def fields_of_stmt(s, acc=None):
     elif k == "unique":
         for e in s[1]:
             fields_of_expr(e, acc)
+    elif k == "uniql":
+        acc.add(s[1])
     elif k == "uvec":
         acc.update(s[1])
     elif k == "foreach":
